@@ -16,6 +16,8 @@ pub struct Pki {
     pub ca_pem: Vec<u8>,
     pub good: (Vec<u8>, Vec<u8>),      // certificate (PEM), pkcs8 key (PEM): trusted, SANs localhost / 127.0.0.1 / ::1
     pub wrongname: (Vec<u8>, Vec<u8>), // trusted, SAN other.example only
+    pub wrongname_host: (Vec<u8>, Vec<u8>), // trusted; names other.example and the loopback ADDRESSES - wrong for the host name `localhost`
+    pub wrongname_ip: (Vec<u8>, Vec<u8>),   // trusted; the NAME localhost and a foreign address - wrong for an address literal
     pub untrusted: (Vec<u8>, Vec<u8>), // self-signed, right names
     pub weak: (Vec<u8>, Vec<u8>),      // trusted, right names, 1024-bit RSA key: parses as an identity, but no acceptor can be built from it
 }
@@ -81,10 +83,12 @@ pub fn make_pki() -> Pki {
     let (ca, cak) = make_cert("verif throw-away CA", &[], &[], None, true);
     let (g, gk) = make_cert("localhost", &["localhost"], &["127.0.0.1", "::1"], Some((&ca, &cak)), false);
     let (w, wk) = make_cert("other.example", &["other.example"], &["192.0.2.7"], Some((&ca, &cak)), false);
+    let (wh, whk) = make_cert("other.example", &["other.example"], &["127.0.0.1", "::1"], Some((&ca, &cak)), false);
+    let (wi, wik) = make_cert("other.example", &["localhost", "other.example"], &["192.0.2.7"], Some((&ca, &cak)), false);
     let (u, uk) = make_cert("localhost", &["localhost"], &["127.0.0.1", "::1"], None, false);
     let pem = |c: &openssl::x509::X509, k: &openssl::pkey::PKey<openssl::pkey::Private>| (c.to_pem().unwrap(), k.private_key_to_pem_pkcs8().unwrap());
     let (k, kk) = make_cert_with("localhost", &["localhost"], &["127.0.0.1", "::1"], Some((&ca, &cak)), false, Some(1024));
-    Pki { ca_pem: ca.to_pem().unwrap(), good: pem(&g, &gk), wrongname: pem(&w, &wk), untrusted: pem(&u, &uk), weak: pem(&k, &kk) }
+    Pki { ca_pem: ca.to_pem().unwrap(), good: pem(&g, &gk), wrongname: pem(&w, &wk), wrongname_host: pem(&wh, &whk), wrongname_ip: pem(&wi, &wik), untrusted: pem(&u, &uk), weak: pem(&k, &kk) }
 }
 
 fn identity(p: &(Vec<u8>, Vec<u8>)) -> native_tls::Identity {
@@ -117,6 +121,16 @@ fn frame(m: &DiameterMessage) -> Vec<u8> {
 
 pub const PANIC_HBH: u32 = 0xdead_0001;
 pub const PANIC_SYNC_HBH: u32 = 0xdead_0002;
+pub const FAIL_HBH: u32 = 0xdead_0003;
+pub const BIG_HBH: u32 = 0xb160_0000;
+
+fn big_answer(req: &DiameterMessage, dict: Arc<Dictionary>) -> DiameterMessage {
+    let kib = (req.get_hop_by_hop_id() & 0xfffff) as usize;
+    let mut res = DiameterMessage::new(req.get_command_code(), req.get_application_id(), 0, req.get_hop_by_hop_id(), req.get_end_to_end_id(), dict);
+    res.add_avp(268, None, 0x40, Unsigned32::new(2001).into());
+    res.add_avp(25, None, 0, diameter::avp::OctetString::new(vec![(req.get_end_to_end_id() & 0xff) as u8; kib * 1024]).into());
+    res
+}
 
 /// the handler of every scenario: echoes identifiers and the marker; panics on a designated request
 fn echo_handler(dict: Arc<Dictionary>, seen: Arc<Mutex<Vec<String>>>) -> impl Fn(DiameterMessage) -> std::pin::Pin<Box<dyn std::future::Future<Output = diameter::Result<DiameterMessage>> + Send>> + Clone + Send + 'static {
@@ -130,6 +144,13 @@ fn echo_handler(dict: Arc<Dictionary>, seen: Arc<Mutex<Vec<String>>>) -> impl Fn
         Box::pin(async move {
             if req.get_hop_by_hop_id() == PANIC_HBH {
                 panic!("scripted handler panic");
+            }
+            if req.get_hop_by_hop_id() == FAIL_HBH {
+                return Err(diameter::Error::ServerError("scripted handler failure".into()));
+            }
+            if req.get_hop_by_hop_id() & 0xfff0_0000 == BIG_HBH {
+                // a large answer: (hop-by-hop id & 0xfffff) KiB of payload
+                return Ok(big_answer(&req, dict));
             }
             let marker = req.get_avp(263).and_then(|a| a.get_utf8string().map(|s| s.value().to_string())).unwrap_or_default();
             seen.lock().unwrap().push(marker.clone());
@@ -496,7 +517,13 @@ pub async fn tls_cell(pki: Arc<Pki>, dict: Arc<Dictionary>, spec: Vec<String>) -
     let cmd: u32 = kv.get("cmd").and_then(|x| x.parse().ok()).unwrap_or(272);
     let id = if stls {
         let idt = identity(match cert.as_str() {
-            "wrongname" => &pki.wrongname,
+            // "trusted, but not for the name asked for" comes in three kinds: names that have nothing to do with the
+            // address; the right ADDRESSES where a host name was asked for; the right NAME where an address was
+            "wrongname" => match (kv.get("wn").and_then(|x| x.parse::<usize>().ok()).unwrap_or(0), addr_kind.as_str()) {
+                (0, _) => &pki.wrongname,
+                (_, "host") => &pki.wrongname_host,
+                _ => &pki.wrongname_ip,
+            },
             "untrusted" => &pki.untrusted,
             "weak" => &pki.weak,
             _ => &pki.good,
@@ -522,6 +549,38 @@ pub async fn tls_cell(pki: Arc<Pki>, dict: Arc<Dictionary>, spec: Vec<String>) -
             _ => format!("localhost:{}", raddr.port()),
         };
         let marker = format!("MARKER-c13-{}-{}", cell_id, raddr.port());
+        // `burst=<n>`: first, several times over, n peers connect at the same moment (so that they wait in the listener's
+        // backlog together) and each sends a clear-text request: a server with an identity answers none of them
+        let burst: usize = kv.get("burst").and_then(|x| x.parse().ok()).unwrap_or(0);
+        let mut burst_answers = 0usize;
+        if burst > 0 {
+            for round in 0..5 {
+                let barrier = Arc::new(tokio::sync::Barrier::new(burst));
+                let mut tasks = vec![];
+                for i in 0..burst {
+                    let (b, d, mk) = (barrier.clone(), dict.clone(), format!("{}-b{}-{}", marker, round, i));
+                    tasks.push(tokio::spawn(async move {
+                        b.wait().await;
+                        let mut s = match TcpStream::connect(saddr).await {
+                            Ok(s) => s,
+                            Err(_) => return 0usize,
+                        };
+                        let f = frame(&request_cmd(&d, cmd, 4200 + i as u32, 4300, &mk));
+                        if s.write_all(&f).await.is_err() {
+                            return 0;
+                        }
+                        let mut one = [0u8; 1];
+                        match tokio::time::timeout(Duration::from_millis(700), s.read(&mut one)).await {
+                            Ok(Ok(n)) if n > 0 => 1,
+                            _ => 0,
+                        }
+                    }));
+                }
+                for t in tasks {
+                    burst_answers += t.await.unwrap_or(0);
+                }
+            }
+        }
         let mut client = DiameterClient::new(&address, DiameterClientConfig { use_tls: ctls, verify_cert: verify });
         let wait = Duration::from_millis(4000);
         let connected = tokio::time::timeout(wait, client.connect()).await;
@@ -545,7 +604,9 @@ pub async fn tls_cell(pki: Arc<Pki>, dict: Arc<Dictionary>, spec: Vec<String>) -
         // (a client with TLS off speaks clear text by configuration; against a server that serves nobody whether its
         // request got as far as the recorder is a race, and says nothing)
         let clear = contains(&captured, marker.as_bytes()) && !(cert == "weak" && !ctls);
-        let served = seen.lock().unwrap().iter().any(|m| *m == marker);
+        let burst_served = seen.lock().unwrap().iter().filter(|m| m.starts_with(&format!("{}-b", marker))).count();
+        let answered = answered || burst_answers > 0;
+        let served = seen.lock().unwrap().iter().any(|m| *m == marker) || burst_served > 0;
         let class = if answered && !clear {
             "session"
         } else if answered {
@@ -556,6 +617,89 @@ pub async fn tls_cell(pki: Arc<Pki>, dict: Arc<Dictionary>, spec: Vec<String>) -
         let _ = proceeded;
         format!("{} clear={} answered={} served={}", class, clear as u8, answered as u8, served as u8)
     }
+}
+
+/// `lsnpipe tls=<0|1> n=<k> kib=<size>`: one client sends k requests back to back, each answered with `kib` KiB, and behind
+/// them one request on which the handler fails; the client is slow to start reading. The server ends the connection
+/// after the failure - every answer it had produced before must still arrive, complete and in order.
+/// answer: `answers=<complete correct answers> end=<eof|reset|timeout|garbage>`
+pub async fn listener_pipeline(pki: Arc<Pki>, dict: Arc<Dictionary>, spec: Vec<String>) -> String {
+    let mut kv = std::collections::HashMap::new();
+    for t in spec.iter() {
+        if let Some((k, v)) = t.split_once('=') {
+            kv.insert(k.to_string(), v.to_string());
+        }
+    }
+    let tls = kv.get("tls").map(|x| x == "1").unwrap_or(false);
+    let n: usize = kv.get("n").and_then(|x| x.parse().ok()).unwrap_or(4);
+    let kib: u32 = kv.get("kib").and_then(|x| x.parse().ok()).unwrap_or(64).min(1000);
+    let id = if tls { Some(identity(&pki.good)) } else { None };
+    let seen: Arc<Mutex<Vec<String>>> = Default::default();
+    let addr = start_server(id, dict.clone(), seen.clone()).await;
+    let mut p = match open_peer(addr, tls).await {
+        Some(p) => p,
+        None => return "answers=0 end=no-connection".into(),
+    };
+    let mut out = vec![];
+    let mut want: Vec<Vec<u8>> = vec![];
+    for i in 0..n {
+        let req = request(&dict, BIG_HBH | kib, 7000 + i as u32, "pipe");
+        want.push(frame(&big_answer(&req, dict.clone())));
+        out.extend(frame(&req));
+    }
+    out.extend(frame(&request(&dict, FAIL_HBH, 1, "pipe-fail")));
+    // the requests go out in the background (the server stops reading while its answers find no room)
+    let (mut rd, mut wr): (Box<dyn tokio::io::AsyncRead + Send + Unpin>, Box<dyn tokio::io::AsyncWrite + Send + Unpin>) = match p {
+        Peer::Plain(s) => {
+            let (a, b) = s.into_split();
+            (Box::new(a), Box::new(b))
+        }
+        Peer::Tls(s) => {
+            let (a, b) = tokio::io::split(s);
+            (Box::new(a), Box::new(b))
+        }
+    };
+    let writer = tokio::spawn(async move {
+        let _ = wr.write_all(&out).await;
+        // keep the sending side open until the reader is done
+        tokio::time::sleep(Duration::from_secs(20)).await;
+        drop(wr);
+    });
+    tokio::time::sleep(Duration::from_millis(600)).await;
+    let mut got = 0usize;
+    let mut end = "eof";
+    let r = tokio::time::timeout(Duration::from_secs(15), async {
+        for w in &want {
+            let mut buf = vec![0u8; w.len()];
+            let mut off = 0;
+            while off < buf.len() {
+                // read slowly, in small pieces
+                let hi = (off + 16384).min(buf.len());
+                match rd.read(&mut buf[off..hi]).await {
+                    Ok(0) => return if off == 0 { "eof" } else { "eof-inside-answer" },
+                    Ok(k) => off += k,
+                    Err(_) => return "reset",
+                }
+            }
+            if &buf != w {
+                return "garbage";
+            }
+            got += 1;
+        }
+        let mut one = [0u8; 1];
+        match rd.read(&mut one).await {
+            Ok(0) => "eof",
+            Ok(_) => "garbage",
+            Err(_) => "reset-after-answers",
+        }
+    })
+    .await;
+    match r {
+        Ok(e) => end = e,
+        Err(_) => end = "timeout",
+    }
+    writer.abort();
+    format!("answers={} end={}", got, end)
 }
 
 /* ---------------------------------------------------------------- C11 / C12 over real TCP (supporting) */
@@ -853,6 +997,7 @@ pub fn run_batch(rt: &tokio::runtime::Runtime, pki: Arc<Pki>, dict: Arc<Dictiona
             hs.push(tokio::spawn(async move {
                 match toks[0].as_str() {
                     "lsn" => listener_scenario(pki, dict, toks[1..].to_vec()).await,
+                    "lsnpipe" => listener_pipeline(pki, dict, toks[1..].to_vec()).await,
                     "tls" => tls_cell(pki, dict, toks[1..].to_vec()).await,
                     "tlsq" => tls_sequence_in_child(toks[1..].join(" ")).await,
                     "tlsrude" => tls_rude(dict, toks[1..].to_vec()).await,
